@@ -1,18 +1,17 @@
 """C03 - matrix algebra operations equal their dense definitions.
 
-Inputs the generator deliberately avoids because the *property* fails on them on the unchanged tree (genuine FEAT
-defects, reproduced with the real containers at Q; /repo is not changed; full text: FINDINGS_C03.md):
+Two streams: `matalg` (the clean input classes) and `edge` (input classes on which the *property* fails on the unchanged
+tree; they are executed and judged on every run, the failures carry the signatures below and are matched against the
+open entries of KNOWN_FINDINGS.json by vlib.run_pipeline; full text in FINDINGS_C03.md):
 
- F1  SparseMatrixBCSR::row_norm2 on a block row with >= 2 stored blocks: Arch::RowNorm::bcsr_generic_norm2 takes the
-     square root inside the loop over the blocks of the row (sqrt(sqrt(b1^2) + b2^2) instead of sqrt(b1^2 + b2^2)).
-     The generator only emits `bcsr .. rownorm2` for matrices with at most one block per row.
- F2  SparseMatrixCSR::row_norm2sqr(row_norms, scal): documented as sum_j scal_j a_ij^2 (and coded like that for BCSR),
-     but csr_generic_scaled_norm2sqr uses scal[row].  The generator only emits `csr .. rownorm2sqr_s` for square
-     matrices on which both readings agree (constant scal, or a diagonal pattern).
- F3  every row-loop operation (lump_rows, row_norm2*, extract_diag, scale_rows/cols, add_*_product as X, D or B,
-     shrink) on an *entry-free* matrix with rows > 0 (SparseMatrixCSR(rows, cols), e.g. the result of shrink) and
-     max/min(_abs)_element on any entry-free matrix dereference the null row_ptr / val array (SIGSEGV).  Entry-free
-     operands only appear in the fixed corpus, where the code has no row loop over them (axpy/scale/frob, 0 rows).
+ c03-edge:F1  SparseMatrixBCSR::row_norm2 on a block row with >= 2 stored blocks (bcsr_generic_norm2 takes the square
+              root inside the loop over the blocks).  Oracle: sqrt of the dense row sum of squares.
+ c03-edge:F2  SparseMatrixCSR::row_norm2sqr(row_norms, scal): csr_generic_scaled_norm2sqr uses scal[row]; the oracle
+              is the documented sum_j scal_j a_ij^2.
+ c03-edge:F3  any operand is an entry-free matrix (array-less SparseMatrixCSR/BCSR(rows, cols)): the row-loop members
+              and max/min(_abs)_element dereference null arrays.  Oracle: a valid entry-free matrix must not crash,
+              the results are the zero / empty results.
+The Lean model is compared on F1/F2 (it models the code as it is) and not on F3 (it returns the zero results).
 """
 import json
 import math
@@ -293,7 +292,7 @@ def gen_case(rng, sizes):
         op = rng.choice(["lump", "rownorm2", "rownorm2sqr", "rownorm2sqr_s", "frob"])
         A = gen_mat(rng, rows, cols, bh, bw, blocked)
         if op == "rownorm2" and blocked:
-            # FINDINGS_C03.md F1: at most one block per row
+            # clean class (at most one block per row); the general case runs in stream `edge` (c03-edge:F1)
             pat = [r[:1] if rng.random() < 0.7 else [] for r in A.pat]
             pat = ensure_entries(rng, pat, cols)
             A = Mat(rows, cols, pat, gen_vals(rng, pat, bh, bw, True), bh, bw, True)
@@ -301,7 +300,7 @@ def gen_case(rng, sizes):
             if blocked:
                 s = [rval(rng) for _ in range(cols * bw)]
             else:
-                # FINDINGS_C03.md F2: square, and either a constant scal or a diagonal pattern
+                # clean class (both readings of scal agree); the general case runs in stream `edge` (c03-edge:F2)
                 n = rows
                 if rng.random() < 0.5:
                     A = gen_mat(rng, n, n)
@@ -645,7 +644,7 @@ def oracle(case, out):
             if op == "frob":
                 want = qsqrt(sum((x * x for x in vals), Fraction(0)))
             elif not vals:
-                return "generator: extreme element of an entry-free matrix"
+                want = Fraction(0)      # the zero matrix
             else:
                 want = {"maxabs": max(abs(x) for x in vals), "minabs": min(abs(x) for x in vals),
                         "max": max(vals), "min": min(vals)}[op]
@@ -740,9 +739,116 @@ def canon(out):
     return "ABORT" if out.startswith("ABORT") else out
 
 
+def edge_class(case):
+    """known-finding input class of a case (None = clean class)"""
+    try:
+        c = Case(case)
+    except Exception:
+        return None
+    if any(m.nb == 0 for m in c.mats.values()):
+        return "F3"
+    if c.fmt == "bcsr" and c.op == "rownorm2" and any(len(r) >= 2 for r in c.mats["A"].pat):
+        return "F1"
+    if c.fmt == "csr" and c.op == "rownorm2sqr_s":
+        return "F2"
+    return None
+
+
 def signature(case, out, why):
+    k = edge_class(case)
+    if k is not None:
+        return "c03-edge:" + k
     t = case.split()
     return "%s:%s:%s" % (t[0], t[4] if t[0] == "bcsr" else t[2], (why or "")[:40])
+
+
+def model_filter(case):
+    # the model reproduces F1/F2 (code as it is); on entry-free operands it returns the zero results
+    return edge_class(case) != "F3"
+
+
+def empty_mat(rows, cols, bh=1, bw=1, blocked=False):
+    return Mat(rows, cols, [[] for _ in range(rows)], [[] for _ in range(rows)], bh, bw, blocked)
+
+
+def gen_edge_case(rng, sizes):
+    it = rng.choice([32, 64])
+    k = rng.random()
+    if k < 0.25:
+        # F1: BCSR row_norm2, any pattern
+        bh, bw = rng.choice(BLOCKS)
+        rows, cols = rdim(rng, sizes), rdim(rng, [s for s in sizes if s >= 2] or [2, 3])
+        A = gen_mat(rng, rows, cols, bh, bw, True, style=rng.choice(["full", "dense", "sparse", "diagplus"]))
+        return "bcsr %d %d %d rownorm2 %s" % (it, bh, bw, A.tok())
+    if k < 0.5:
+        # F2: CSR scaled row_norm2sqr with a general scaling vector (rows <= cols: scal[row] stays in bounds)
+        cols = rdim(rng, sizes)
+        rows = cols if rng.random() < 0.6 else rdim(rng, [s for s in sizes if s <= cols])
+        A = gen_mat(rng, rows, cols)
+        return "csr %d rownorm2sqr_s %s %s" % (it, A.tok(), fl([rval(rng) for _ in range(cols)]))
+    # F3: entry-free operands
+    blocked = rng.random() < 0.25
+    bh, bw = rng.choice(SQUARE_BLOCKS) if blocked else (1, 1)
+    head = ("bcsr %d %d %d " % (it, bh, bw)) if blocked else ("csr %d " % it)
+    n, m = rdim(rng, sizes), rdim(rng, sizes)
+    E = empty_mat(n, m, bh, bw, blocked)
+    ops = ["lump", "rownorm2", "rownorm2sqr", "rownorm2sqr_s", "diag", "scale_rows", "scale_cols", "maxabs", "minabs",
+           "max", "min", "frob", "axpy", "scale", "prod", "prod", "prod"] + ([] if blocked else ["shrink"])
+    op = rng.choice(ops)
+    if op in ("lump", "rownorm2", "rownorm2sqr", "maxabs", "minabs", "max", "min", "frob"):
+        return head + "%s %s" % (op, E.tok())
+    if op == "rownorm2sqr_s":
+        return head + "rownorm2sqr_s %s %s" % (E.tok(), fl([rval(rng) for _ in range(m * bw)]))
+    if op == "diag":
+        return head + "diag %s" % empty_mat(n, n, bh, bw, blocked).tok()
+    if op == "shrink":
+        return head + "shrink %s %s" % (E.tok(), fs(rng.choice([Fraction(0), Fraction(1)])))
+    if op in ("axpy", "scale"):
+        return head + "%s %s %s %s %d" % (op, E.tok(), E.tok(), fs(ralpha(rng)), rng.choice([0, 1]))
+    if op in ("scale_rows", "scale_cols"):
+        ns = n * bh if op == "scale_rows" else m * bw
+        return head + "%s %s %s %s %d" % (op, E.tok(), E.tok(), fl([rval(rng) for _ in range(ns)]), rng.choice([0, 1]))
+    # products: X, D, (A,) or B entry-free
+    kk, ll = rdim(rng, sizes), rdim(rng, sizes)
+    pop = rng.choice(["dmm", "dmm_csr"]) if blocked else rng.choice(["mm", "dmm", "dgm"])
+    if pop in ("mm", "dgm"):
+        ll = kk
+    dblk = blocked and pop == "dmm"
+    D = gen_mat(rng, n, kk, bh, bw, dblk)
+    B = gen_mat(rng, ll, m, bh, bw, dblk)
+    A = gen_mat(rng, kk, ll, bh, bw, blocked) if pop in ("dmm", "dmm_csr") else None
+    X = gen_mat(rng, n, m, bh, bw, blocked, style=rng.choice(["full", "dense"]))
+    which = rng.choice(["X", "D", "B"] + (["A"] if A is not None else []))
+    if which == "X":
+        X = E
+    elif which == "D":
+        D = empty_mat(n, kk, bh, bw, dblk)
+    elif which == "B":
+        B = empty_mat(ll, m, bh, bw, dblk)
+    else:
+        A = empty_mat(kk, ll, bh, bw, blocked)
+    alpha, allow = ralpha(rng), 1
+    if pop == "mm":
+        return head + "mm %s %s %s %s %d" % (X.tok(), D.tok(), B.tok(), fs(alpha), allow)
+    if pop == "dgm":
+        return head + "dgm %s %s %s %s %s %d" % (X.tok(), D.tok(), fl([rval(rng) for _ in range(kk)]), B.tok(), fs(alpha), allow)
+    return head + "%s %s %s %s %s %s %d" % (pop, X.tok(), D.tok(), A.tok(), B.tok(), fs(alpha), allow)
+
+
+EDGE_CORPUS = [
+    "bcsr 64 2 2 rownorm2 1 2 2 0 2 2 0 1 8 3/1 0/1 0/1 0/1 4/1 0/1 0/1 0/1",
+    "csr 64 rownorm2sqr_s 2 2 3 0 2 2 2 0 1 2 1/1 1/1 2 2/1 3/1",
+    "csr 64 lump 2 2 3 0 0 0 0 0",
+    "csr 64 rownorm2sqr 2 2 3 0 0 0 0 0",
+    "csr 64 diag 2 2 3 0 0 0 0 0",
+    "csr 64 shrink 2 2 3 0 0 0 0 0 1/1",
+    "csr 64 scale_rows 2 2 3 0 0 0 0 0 2 2 3 0 0 0 0 0 2 1/1 1/1 0",
+    "csr 64 maxabs 2 2 3 0 0 0 0 0",
+    "csr 64 min 2 2 3 0 0 0 0 0",
+    "csr 64 mm 2 2 3 0 0 0 0 0 2 2 3 0 1 2 2 0 1 2 1/1 1/1 2 2 3 0 1 2 2 0 1 2 1/1 1/1 1/1 1",
+    "csr 64 mm 2 2 3 0 1 2 2 0 1 2 1/1 1/1 2 2 3 0 0 0 0 0 2 2 3 0 1 2 2 0 1 2 1/1 1/1 1/1 1",
+    "csr 64 mm 2 2 3 0 1 2 2 0 1 2 1/1 1/1 2 2 3 0 1 2 2 0 1 2 1/1 1/1 2 2 3 0 0 0 0 0 1/1 1",
+]
 
 
 def main(argv):
@@ -769,7 +875,16 @@ def main(argv):
             + gen_cases(rng, 8000, [1, 2, 3, 5, 8, 13, 21]) \
             + gen_cases(rng, 300, [3, 13, 34, 55])
     st = vlib.Stream("matalg", cases, [binary], vlib.driver_cmd(PROP), oracle=oracle, nontrivial=nontrivial,
-                     describe=describe, signature=signature, canon=canon)
+                     describe=describe, signature=signature, canon=canon, model_filter=model_filter)
+    if args.replay:
+        ecases = []
+    else:
+        erng = random.Random(args.seed * 1000003 + 33)
+        ne = 1500 if args.tier == "quick" else 12000
+        ecases = EDGE_CORPUS + [gen_edge_case(erng, [1, 2, 2, 3, 3, 4, 5]) for _ in range(ne)]
+    est = vlib.Stream("edge", ecases, [binary], vlib.driver_cmd(PROP), oracle=oracle, nontrivial=nontrivial,
+                      describe=lambda case: describe(case) + ["edge-class:%s" % edge_class(case)], signature=signature,
+                      canon=canon, model_filter=model_filter)
     stats_rule = ("CSR: axpy, scale, scale_rows/cols (incl. x aliasing this, operand mismatch), add_mat_mat_product, "
                   "add_double_mat_product (CSR and diagonal middle factor), lump_rows, extract_diag(+indices), "
                   "norm_frobenius, row_norm2/2sqr/scaled, max/min(_abs)_element, shrink; BCSR (2x2, 3x3, 2x3, 3x2): the "
@@ -777,11 +892,11 @@ def main(argv):
                   "poorer / disjoint / overlapping per row, allow_incomplete both ways, empty rows of X, D, A, B. "
                   "non-trivial = (products) the structural product has >= 1 entry and X's row pattern differs from "
                   "the product's in >= 1 row; (others) >= 1 stored entry")
-    rc = vlib.run_pipeline(PROP, args.tier, args.seed, lean, [st], t0, assumptions=[
+    rc = vlib.run_pipeline(PROP, args.tier, args.seed, lean, [st, est], t0, assumptions=[
         "Index modelled as unbounded Nat (no 32/64-bit overflow at the sizes generated)",
         "CSR/BCSR operands have strictly increasing column indices per row (as every FEAT assembly produces)",
         "square roots: the deterministic q_sqrt of exact_q.hpp / Proto.qsqrt (float conformance T3 not run)",
-        "excluded inputs (genuine defects, FINDINGS_C03.md): BCSR row_norm2 with >= 2 blocks in a row, CSR scaled "
-        "row_norm2sqr with a non-constant scal on a non-diagonal matrix, row-loop operations on entry-free matrices"],
+        "known findings (stream `edge`, judged on every run, FINDINGS_C03.md): c03-edge:F1 BCSR row_norm2 with >= 2 "
+        "blocks in a row, c03-edge:F2 CSR scaled row_norm2sqr, c03-edge:F3 entry-free operands"],
         extra_cov={"rule": stats_rule})
     return rc
